@@ -54,7 +54,7 @@ for g in raw["census"]:
         why = None
         if e["op"] in ("!=", "==") and e["value"] == "1262571098":
             pass  # magic number test
-        elif g["anchor"] in ("io:decodingTask.decode", "io:Reader.readHeader") and e["op"] in ("<", "==") and e["value"] not in ("0", "1"):
+        elif g["anchor"] in ("io:decodingTask.decode", "io:Reader.readHeader", "io:Writer.writeHeader") and e["op"] in ("<", "==") and e["value"] not in ("0", "1"):
             pass  # acceptance bounds and version tests of the stream parser: which streams of format 6 are accepted is format
         elif e["op"] not in KEEP_OPS:
             why = "comparison / additive arithmetic / event or error argument: not a wire constant"
